@@ -35,7 +35,7 @@ namespace {
       J b = J::array();
       const int n = int(rng.range(1, max_n));
       for (int i = 0; i < n; ++i) {
-        const int k = int(rng.below(d <= 0 ? 6 : 14));
+        const int k = int(rng.below(d <= 0 ? 6 : 16));
         J s = J::object();
         switch (k) {
         case 0:
@@ -131,6 +131,27 @@ namespace {
           s["k"] = J("cb");
           s["site"] = J(next_site++);
           break;
+        case 14: {
+          // a declaration in an if condition inside a block that declares nothing else; the name also denotes
+          // an outer binding (a visible local or a global), which must be what a read AFTER the block reaches
+          s["k"] = J("ifdecl");
+          if (!visible.empty() && rng.chance(500)) {
+            s["name"] = J(rng.pick(visible));
+          } else {
+            s["name"] = J("GLOB" + std::to_string(rng.below(N_GLOB)));
+          }
+          s["tag"] = J(next_tag++);
+          break;
+        }
+        case 15: {
+          // ranged for with two iterations and a body without a static declaration: the first iteration
+          // introduces (through eval) a local that shadows a global; the second iteration must not see it
+          s["k"] = J("rangedfor");
+          s["g"] = J(int(rng.below(N_GLOB)));
+          s["tag"] = J(next_tag++);
+          s["var"] = J(nm("x"));
+          break;
+        }
         case 13:
           s["k"] = J("hf"); // call of a helper whose position in the function table changes during the history
           s["i"] = J(int(rng.below(3)));
@@ -185,6 +206,14 @@ namespace {
     }
     if (k == "cb") return "cb(" + std::to_string(s.at("site").num()) + ");";
     if (k == "hf") return "t(hf" + std::to_string(s.at("i").num() % 3) + "(0));";
+    if (k == "ifdecl") return "{ if (var " + name() + " = true) { t(" + tag() + ") } } t(" + name() + ");";
+    if (k == "rangedfor") {
+      const std::string gname = "GLOB" + std::to_string(s.at("g").num() % N_GLOB);
+      const std::string v = s.at("var").str();
+      // two different read nodes: one only ever evaluated while the local exists, one only while it does
+      // not (a single node evaluated in both states is known finding C04-K2)
+      return "for (" + v + " : [1, 2]) { " + v + " == 1 && eval(\"var " + gname + " = " + tag() + "\") > 0; if (" + v + " == 1) { t(" + gname + ") } else { t(" + gname + ") } }";
+    }
     // ---- shapes that are never generated; they exist for the known-finding replay files
     if (k == "intro_unguarded_read") {
       // K2: the read is evaluated both when the name is not local and when it is
@@ -294,6 +323,12 @@ namespace {
         call(int(s.at("f").num()), fl, 0);
       } else if (k == "hf") {
         trace.push_back(2000 + s.at("i").num() % 3);
+      } else if (k == "ifdecl") {
+        trace.push_back(s.at("tag").num());                 // inside the if: the bool declared in the condition is not read
+        trace.push_back(lookup(frame, s.at("name").str())); // after the block: the outer binding again
+      } else if (k == "rangedfor") {
+        trace.push_back(s.at("tag").num());                                 // first iteration: the local introduced by eval
+        trace.push_back(globs[size_t(s.at("g").num()) % globs.size()]);     // second iteration: a fresh scope, the global
       } else if (k == "cb") {
         if (int(s.at("site").num()) == fault_site) {
           throw Abort();
